@@ -43,7 +43,7 @@ def tla_id(i):
 
 
 def catalogue_module(rows):
-    ents = ",\n".join('  [kind |-> "%s", idk |-> "%s", id |-> %s, blen |-> %d, rlen |-> %d]' % (r["kind"], r["idk"], tla_id(r["id"]), r["blen"], r["rlen"])
+    ents = ",\n".join('  [kind |-> "%s", idk |-> "%s", id |-> %s, pay |-> "%s", blen |-> %d, rlen |-> %d]' % (r["kind"], r["idk"], tla_id(r["id"]), r["pay"], r["blen"], r["rlen"])
                       for r in rows)
     return ("-------------------------- MODULE FramingCatalogue --------------------------\n"
             "(* Byte and rune lengths and typed ids of the JSON bodies of the harness's message catalogue (harness/c18:\n"
@@ -99,8 +99,10 @@ class Jobs:
 
 
 FRAMING_NEG = (("Framing_neg.cfg", "Lossless", "Content-Length counts runes"),
-               ("Framing_neg_idunquote.cfg", "IdsPreserved", "quoted numerals decode as numbers"))
-CONN_NEG = (("JsonRpc_neg_nomutex.cfg", "FramesNeverInterleave", "no writeMu"),
+               ("Framing_neg_idunquote.cfg", "IdsPreserved", "quoted numerals decode as numbers"),
+               ("Framing_neg_nullresult.cfg", "Lossless", "a response whose result is JSON null is rejected"))
+CONN_NEG = (("JsonRpc_neg_nullresult.cfg", "ReaderAlive", "a response whose result is JSON null kills the run loop"),
+            ("JsonRpc_neg_nomutex.cfg", "FramesNeverInterleave", "no writeMu"),
             ("JsonRpc_neg_unbuffered.cfg", "ReaderNeverBlocks", "unbuffered reply channel"),
             ("JsonRpc_neg_latereg.cfg", "RegisteredBeforeSending", "register after sending"),
             ("JsonRpc_neg_alloc2step.cfg", "UniqueIds", "two-step id allocation: two calls share an id"),
@@ -170,6 +172,13 @@ def framing(ck, thorough, binp, jobs):
     ck.set("framing_stream_runs", s["stream_runs"] + s["pipe_runs"] + s["roundtrips"])
     ck.set("framing_variants", s["variants"])
     ck.set("framing_error_classes", s["errors"])
+    kinds = sorted({r["pay"] for r in rows if r["kind"] == "response"})
+    if set(kinds) != {"object", "array", "string", "number", "true", "false", "null", "error", "errdata"}:
+        raise vlib.InfraError("catalogue lacks a response kind: %s" % kinds)
+    if s.get("pays_compared", 0) < s["behaviours"] // 2:
+        raise vlib.InfraError("payload kinds hardly compared: %s" % s.get("pays_compared"))
+    ck.set("framing_response_kinds", kinds)
+    ck.set("framing_payload_kinds_compared", s["pays_compared"])
     ck.set("framing_typed_ids_compared", s["ids_compared"])
     ck.set("framing_numeric_looking_string_ids_read_back", s["numeric_string_ids_read"])
     ck.set("framing_catalogue", [{k: r[k] for k in ("kind", "idk", "id", "blen", "rlen")} for r in rows])
